@@ -1445,7 +1445,10 @@ class GroupBy:
 
         group_index = self._result_index[self._labels_argsort]
         if mask is not None:
-            non_empty = np.array([len(arr) > 0 for arr in array_splits[0]], dtype=bool)
+            # array_split yields one (empty) piece even when there is no group at all
+            non_empty = np.array(
+                [len(arr) > 0 for arr in array_splits[0]][: len(group_counts)], dtype=bool
+            )
         else:
             non_empty = group_counts > 0
         group_index = group_index[non_empty]
